@@ -164,6 +164,7 @@ func (t *tr) autoHelpers(fd *ast.FuncDecl) {
 		inherit(u.ctor)
 		inherit(u.inout)
 		inherit(u.mutate)
+		inherit(u.step)
 		if _, own := u.abstract[name]; !own {
 			u.abstract[name] = u.abstract[caller]
 		}
@@ -352,6 +353,42 @@ func (t *tr) blockBinders(f *fctx, stmts []ast.Stmt, fn string, n ast.Node) {
 		}
 		if !f.hasBinder(leanName(o.name)) {
 			f.binders = append(f.binders, binder{leanName(o.name), bty})
+		}
+	}
+	for _, o := range t.u.step[fn] {
+		var sig *types.Signature
+		var recvTy types.Type
+		for _, s := range stmts {
+			ast.Inspect(s, func(nd ast.Node) bool {
+				if c, ok := nd.(*ast.CallExpr); ok && sig == nil && t.ck(c) == o.callee {
+					sig, _ = t.typeOf(c.Fun).(*types.Signature)
+					if sel, ok := c.Fun.(*ast.SelectorExpr); ok {
+						recvTy = t.typeOf(sel.X)
+					}
+				}
+				return true
+			})
+		}
+		if sig == nil || recvTy == nil {
+			continue
+		}
+		if kr, _ := classify(recvTy); kr != kAbs {
+			t.fail(n, "-step callee %s: the receiver must be an abstract object (-abs)", o.callee)
+			continue
+		}
+		f.stepops[o.callee] = o
+		parts := []string{t.leanType(recvTy)}
+		for i := 0; i < sig.Params().Len(); i++ {
+			parts = append(parts, t.leanType(sig.Params().At(i).Type()))
+		}
+		var rs []string
+		for i := 0; i < sig.Results().Len(); i++ {
+			rs = append(rs, t.leanType(sig.Results().At(i).Type()))
+		}
+		rs = append(rs, t.leanType(recvTy))
+		parts = append(parts, strings.Join(rs, " × "))
+		if !f.hasBinder(leanName(o.name)) {
+			f.binders = append(f.binders, binder{leanName(o.name), strings.Join(parts, " → ")})
 		}
 	}
 	for _, o := range t.u.mutate[fn] {
